@@ -359,8 +359,8 @@ func TestC12_Trie(t *testing.T) {
 		if rapid.IntRange(0, 4).Draw(t, "big") == 0 {
 			maxN = 30
 		}
-		if vkThorough() && rapid.IntRange(0, 49).Draw(t, "huge") == 0 {
-			maxN = 400
+		if vkThorough() && rapid.IntRange(0, 99).Draw(t, "huge") == 0 {
+			maxN = 300
 		}
 		set := g.set(t, maxN)
 
